@@ -28,6 +28,16 @@ type Config struct {
 	StdlibDir string   // /verif/stdlib
 	Tags      string
 	Verbose   bool
+	ModDir    string     // directory packages.Load runs in (default RepoDir); a scratch module for generated code
+	Extra     []ExtraPkg // further packages (absolute directories) loaded with contracts
+}
+
+// ExtraPkg is a package outside RepoDir/<rel> addressing: generated packages of a scratch module, or
+// a repository package addressed by import path from the scratch module.
+type ExtraPkg struct {
+	Dir     string // absolute directory of the package
+	Pattern string // load pattern relative to ModDir ("./c00") or an import path
+	Mirror  string // contract mirror directory ("" = contract file lives in Dir)
 }
 
 // Engine holds the loaded program and everything derived from it.
@@ -94,13 +104,28 @@ func Load(cfg Config) (*Engine, error) {
 		setsByDir[dir] = cs
 		patterns = append(patterns, "./"+p)
 	}
+	for _, x := range cfg.Extra {
+		cs, err := BuildContractSet(x.Dir, x.Mirror, cfg.StdlibDir)
+		if err != nil {
+			return nil, err
+		}
+		for k, v := range cs.Overlay {
+			overlay[k] = v
+		}
+		setsByDir[x.Dir] = cs
+		patterns = append(patterns, x.Pattern)
+	}
+	modDir := cfg.ModDir
+	if modDir == "" {
+		modDir = cfg.RepoDir
+	}
 	tags := cfg.Tags
 	if tags == "" {
 		tags = "verif"
 	}
 	pcfg := &packages.Config{
 		Mode:       packages.LoadAllSyntax | packages.NeedModule,
-		Dir:        cfg.RepoDir,
+		Dir:        modDir,
 		BuildFlags: []string{"-tags=" + tags},
 		Overlay:    overlay,
 		Env:        append(os.Environ(), "GOFLAGS=-mod=mod", "GOPROXY=off", "GOSUMDB=off", "GOTOOLCHAIN=local"),
